@@ -14,6 +14,45 @@ use proptest::strategy::{Strategy, ValueTree};
 use proptest::test_runner::{Config, RngAlgorithm, TestRng, TestRunner};
 use sha2::{Digest, Sha256};
 use vcommon::*;
+
+// Case lines are buffered and written at the end in an order that spreads the expensive (long)
+// ones evenly over the blocks of SHARD consecutive lines that the driver evaluates in parallel.
+static CASES: std::sync::Mutex<Vec<String>> = std::sync::Mutex::new(Vec::new());
+const SHARD: usize = 250; // = shard_size in vlib/props/c03.py
+fn case(s: String) {
+    CASES.lock().unwrap().push(s);
+}
+fn flush_cases() {
+    let mut v = std::mem::take(&mut *CASES.lock().unwrap());
+    let n = v.len();
+    let shards = (n + SHARD - 1) / SHARD.max(1);
+    if shards <= 1 {
+        v.iter().for_each(|s| println!("C {}", s));
+        return;
+    }
+    // longest first, dealt round-robin (alternating direction); every block except the last has
+    // exactly SHARD lines so that the blocks are the driver's shards
+    v.sort_by(|a, b| b.len().cmp(&a.len()).then(a.cmp(b)));
+    let cap = |i: usize| if i + 1 < shards { SHARD } else { n - SHARD * (shards - 1) };
+    let mut blocks: Vec<(usize, Vec<String>)> = (0..shards).map(|_| (0, vec![])).collect();
+    let mut order: Vec<usize> = (0..shards).chain((0..shards).rev()).collect();
+    order.dedup();
+    let mut k = 0usize;
+    for s in v {
+        loop {
+            let i = order[k % order.len()];
+            k += 1;
+            if blocks[i].1.len() < cap(i) {
+                blocks[i].0 += s.len();
+                blocks[i].1.push(s);
+                break;
+            }
+        }
+    }
+    for (_, b) in blocks {
+        b.iter().for_each(|s| println!("C {}", s));
+    }
+}
 use zcash_primitives::block::BlockHeader;
 use zcash_primitives::transaction::components::orchard as orch_ser;
 use zcash_primitives::transaction::components::sprout;
@@ -1382,7 +1421,7 @@ fn main() {
             let tx = build_tx(&mut rng, &mut r, branch, TxVersion::V5, &sh, &[l]).unwrap();
             let b = ser(&tx);
             emit_tx(&mut st, &mut rng, S_EDGE, &b, branch, Some(&fingerprint(&tx)));
-            mutate(&mut st, &mut rng, &b, branch, 8, false);
+            mutate(&mut st, &mut rng, &b, branch, if l > 4000 { 3 } else { 8 }, false);
         }
         let mut counts = vec![(252usize, 0usize), (253, 0), (0, 252), (0, 253), (0, 254)];
         if a.thorough() || a.search {
@@ -1393,7 +1432,7 @@ fn main() {
             let tx = build_tx(&mut rng, &mut r, BranchId::Canopy, TxVersion::V4, &sh, &[0]).unwrap();
             let b = ser(&tx);
             emit_tx(&mut st, &mut rng, S_EDGE, &b, BranchId::Canopy, Some(&fingerprint(&tx)));
-            mutate(&mut st, &mut rng, &b, BranchId::Canopy, 6, false);
+            mutate(&mut st, &mut rng, &b, BranchId::Canopy, if nin + nout > 4000 { 2 } else { 6 }, false);
         }
         // Sapling shapes: spends only / outputs only / both, v4 and v5; Orchard with canonical
         // proof sizes (NU6.2, NU6.3) and all flag bytes; Ironwood with the cross-address bit
@@ -1452,10 +1491,11 @@ fn main() {
         sols.extend([65535, 65536]);
     }
     for &l in &sols {
-        for _ in 0..a.budget(2, 5) {
+        let big = l > 4000;
+        for _ in 0..(if big { 1 } else { a.budget(2, 5) }) {
             let b = header_bytes(&mut rng, l);
             emit_hdr(&mut st, &mut rng, S_GEN, &b);
-            mutate(&mut st, &mut rng, &b, BranchId::Nu5, a.budget(14, 30), true);
+            mutate(&mut st, &mut rng, &b, BranchId::Nu5, if big { 5 } else { a.budget(14, 30) }, true);
         }
     }
 
@@ -1549,6 +1589,7 @@ fn main() {
     emit_vec_fill(&[], 0);
     emit_vec_fill(&[], 10);
 
+    flush_cases();
     stat(format!(
         "{{\"by_src\":{:?},\"by_outcome\":{:?},\"accepted_by_version\":{:?},\"size_hist_pow2\":{:?},\"cases_with_invalid_blobs\":{},\"arb_tx_over_size_cap_skipped\":{},\"alternative_reader_parses\":{},\"largest_input_bytes\":{}}}",
         st.by_src.iter().map(|(k, v)| (k.to_string(), *v)).collect::<BTreeMap<_, _>>(),
